@@ -7,7 +7,7 @@
 //! case <id> <kind>
 //! mc <hex bincode>            one line per client machine
 //! ms <hex bincode>            one line per server machine
-//! tr <n> <ns>:<s|r> ...       the input trace
+//! tr <n> <ns>:<s|sn|r|rn|sp|rp>[+] ...   the input trace (`+` = the line has the optional size column)
 //! delay <ns>
 //! orc <n_u> <u hex…> <n_d> <d hex…>
 //! run <name> <adv|sim> <pps|-> <mtl> <msi> <cont> <oc> <on> <fpc> <fbc> <fps> <fbs> <seed|->
@@ -59,9 +59,62 @@ pub struct SimCase {
     pub kind: String,
     pub mc: Vec<Machine>,
     pub ms: Vec<Machine>,
-    pub trace: Vec<(u64, bool)>,
+    pub trace: Vec<TLine>,
     pub delay_ns: u64,
     pub runs: Vec<RunSpec>,
+}
+
+/// direction tokens `parse_trace` knows
+pub const TOKS: [&str; 6] = ["s", "sn", "r", "rn", "sp", "rp"];
+
+/// one line of an input trace: time, direction token (index into `TOKS`), and whether the
+/// optional third "size" column is written
+#[derive(Clone, Copy, Debug, PartialEq, Eq)]
+pub struct TLine {
+    pub t: u64,
+    pub tok: u8,
+    pub size: bool,
+}
+
+/// plain `s` / `r` lines without a size column
+pub fn plain(v: Vec<(u64, bool)>) -> Vec<TLine> {
+    v.into_iter().map(|(t, s)| TLine { t, tok: if s { 0 } else { 2 }, size: false }).collect()
+}
+
+/// vary what the real parser accepts: `sn` / `rn` for normal packets, interspersed padding lines
+/// `sp` / `rp` (which `parse_trace` ignores), and the optional size column
+pub fn decorate(p: &mut Prng, v: Vec<(u64, bool)>) -> Vec<TLine> {
+    let mode = p.below(4);
+    if mode == 0 {
+        return plain(v);
+    }
+    let mut out = Vec::with_capacity(v.len() * 2);
+    for (i, (t, s)) in v.iter().enumerate() {
+        let alt = mode >= 2 && p.chance(1, 2);
+        let tok = match (*s, alt) {
+            (true, false) => 0,
+            (true, true) => 1,
+            (false, false) => 2,
+            (false, true) => 3,
+        };
+        out.push(TLine { t: *t, tok, size: p.chance(1, 3) });
+        if mode >= 2 && p.chance(1, 3) {
+            // a padding line at this time or between this and the next line (the trace stays time-ordered)
+            let next = v.get(i + 1).map(|x| x.0).unwrap_or(*t + 1_000_000);
+            let tp = if next > *t && p.chance(1, 2) { *t + p.below(next - *t + 1) } else { *t };
+            out.push(TLine { t: tp, tok: if p.chance(1, 2) { 4 } else { 5 }, size: p.chance(1, 3) });
+        }
+    }
+    if mode == 3 && p.chance(1, 3) {
+        // also a padding line before the first packet
+        let t0 = out[0].t;
+        out.insert(0, TLine { t: t0 / 2, tok: if p.chance(1, 2) { 4 } else { 5 }, size: false });
+    }
+    out
+}
+
+fn tline_str(l: &TLine) -> String {
+    format!("{}:{}{}", l.t, TOKS[l.tok as usize], if l.size { "+" } else { "" })
 }
 
 pub fn sim_ev_str(e: &TriggerEvent) -> String {
@@ -101,10 +154,14 @@ fn panic_class(p: &Box<dyn std::any::Any + Send>) -> &'static str {
     }
 }
 
-fn trace_string(trace: &[(u64, bool)]) -> String {
+fn trace_string(trace: &[TLine]) -> String {
     let mut s = String::new();
-    for (t, sent) in trace {
-        let _ = writeln!(s, "{},{}", t, if *sent { "s" } else { "r" });
+    for l in trace {
+        if l.size {
+            let _ = writeln!(s, "{},{},{}", l.t, TOKS[l.tok as usize], 100 + (l.t % 1400));
+        } else {
+            let _ = writeln!(s, "{},{}", l.t, TOKS[l.tok as usize]);
+        }
     }
     s
 }
@@ -239,7 +296,7 @@ pub fn run_case(c: &SimCase) -> String {
     for m in &c.ms {
         let _ = writeln!(out, "ms {}", hex(&genm::machine_bytes(m)));
     }
-    let tr: Vec<String> = c.trace.iter().map(|(t, s)| format!("{}:{}", t, if *s { "s" } else { "r" })).collect();
+    let tr: Vec<String> = c.trace.iter().map(tline_str).collect();
     let _ = writeln!(out, "tr {} {}", c.trace.len(), tr.join(" "));
     let _ = writeln!(out, "delay {}", c.delay_ns);
     for r in &c.runs {
@@ -766,7 +823,8 @@ fn gen_pps(p: &mut Prng) -> Option<usize> {
 
 /// general case: 0-3 machines per side
 pub fn gen_general(p: &mut Prng, id: String) -> SimCase {
-    let trace = gen_trace(p);
+    let trace0 = gen_trace(p);
+    let trace = decorate(p, trace0);
     let delay_ns = *p.pick(DELAYS);
     let nmc = *p.pick(&[0usize, 1, 1, 1, 2, 3]);
     let nms = *p.pick(&[0usize, 0, 1, 1, 2, 3]);
@@ -799,7 +857,8 @@ pub fn gen_general(p: &mut Prng, id: String) -> SimCase {
 
 /// no machines at all (C14)
 pub fn gen_nomachines(p: &mut Prng, id: String) -> SimCase {
-    let trace = gen_trace(p);
+    let trace0 = gen_trace(p);
+    let trace = decorate(p, trace0);
     let delay_ns = *p.pick(DELAYS);
     let mut c = SimCase { id, kind: "nomachines".into(), mc: vec![], ms: vec![], trace, delay_ns, runs: vec![] };
     let mut main = base_run("main", p, None);
@@ -811,7 +870,8 @@ pub fn gen_nomachines(p: &mut Prng, id: String) -> SimCase {
 
 /// blocking-heavy cases: several blocking / padding machines on one side (C16)
 pub fn gen_blocking(p: &mut Prng, id: String) -> SimCase {
-    let trace = gen_trace(p);
+    let trace0 = gen_trace(p);
+    let trace = decorate(p, trace0);
     let delay_ns = *p.pick(DELAYS);
     let pick = |p: &mut Prng| match p.below(5) {
         0 | 1 => t_blocking(p),
@@ -844,7 +904,8 @@ pub fn gen_blocking(p: &mut Prng, id: String) -> SimCase {
 
 /// timer / cancel heavy cases (C17, C18)
 pub fn gen_timers(p: &mut Prng, id: String) -> SimCase {
-    let trace = gen_trace(p);
+    let trace0 = gen_trace(p);
+    let trace = decorate(p, trace0);
     let delay_ns = *p.pick(DELAYS);
     let pick = |p: &mut Prng| match p.below(5) {
         0 | 1 => t_timer(p),
@@ -938,7 +999,8 @@ pub fn gen_scenario(p: &mut Prng, id: String) -> SimCase {
             (vec![mk(true)], vec![mk(false)])
         }
     };
-    let trace = if p.chance(1, 4) { gen_const_rate_trace(p) } else { gen_trace(p) };
+    let trace0 = if p.chance(1, 4) { gen_const_rate_trace(p) } else { gen_trace(p) };
+    let trace = decorate(p, trace0);
     let mut c = SimCase { id, kind: "scenario".into(), mc, ms, trace, delay_ns, runs: vec![] };
     let mut main = base_run("main", p, None);
     main.fpc = 0.0;
@@ -974,7 +1036,7 @@ fn plain_machine(states: Vec<State>) -> Machine {
 pub fn probes() -> Vec<SimCase> {
     let mut res = Vec::new();
     // F5 (fixed in /repo, regression case): pps = 2^32 used to truncate to 0 in `window / pps as u32`
-    res.push(SimCase { id: "probe-F5-pps-2pow32".into(), kind: "probe".into(), mc: vec![], ms: vec![], trace: vec![(0, true)], delay_ns: 0, runs: vec![probe_run(Some(1usize << 32))] });
+    res.push(SimCase { id: "probe-F5-pps-2pow32".into(), kind: "probe".into(), mc: vec![], ms: vec![], trace: plain(vec![(0, true)]), delay_ns: 0, runs: vec![probe_run(Some(1usize << 32))] });
     // F7: non-bypass block extended by a bypass block, then bypass padding
     {
         let s0 = State::new(enum_map! { Event::NormalSent => tr1(1), _ => vec![] });
@@ -984,14 +1046,14 @@ pub fn probes() -> Vec<SimCase> {
         s2.action = Some(Action::BlockOutgoing { bypass: true, replace: false, timeout: konst(0.0), duration: konst(20_000.0), limit: None });
         let mut s3 = State::new(enum_map! { _ => vec![] });
         s3.action = Some(Action::SendPadding { bypass: true, replace: false, timeout: konst(1000.0), limit: None });
-        res.push(SimCase { id: "probe-F7-bypass-extension".into(), kind: "probe".into(), mc: vec![plain_machine(vec![s0, s1, s2, s3])], ms: vec![], trace: vec![(0, true), (50_000_000, true)], delay_ns: 1_000_000, runs: vec![probe_run(None)] });
+        res.push(SimCase { id: "probe-F7-bypass-extension".into(), kind: "probe".into(), mc: vec![plain_machine(vec![s0, s1, s2, s3])], ms: vec![], trace: plain(vec![(0, true), (50_000_000, true)]), delay_ns: 1_000_000, runs: vec![probe_run(None)] });
     }
     // F10 (fixed in /repo, regression case): UpdateTimer with duration 0, no timer running, no replace
     {
         let s0 = State::new(enum_map! { Event::NormalSent => tr1(1), _ => vec![] });
         let mut s1 = State::new(enum_map! { _ => vec![] });
         s1.action = Some(Action::UpdateTimer { replace: false, duration: konst(0.0), limit: None });
-        res.push(SimCase { id: "probe-F10-timer-zero".into(), kind: "probe".into(), mc: vec![plain_machine(vec![s0, s1])], ms: vec![], trace: vec![(0, true), (5_000_000, true)], delay_ns: 1_000_000, runs: vec![probe_run(None)] });
+        res.push(SimCase { id: "probe-F10-timer-zero".into(), kind: "probe".into(), mc: vec![plain_machine(vec![s0, s1])], ms: vec![], trace: plain(vec![(0, true), (5_000_000, true)]), delay_ns: 1_000_000, runs: vec![probe_run(None)] });
     }
     // S1: a BlockOutgoing selected by pick_next is executed at selection time, before it is due:
     // the blocking expiry / bypass flag change early, and a newer action does not supersede it
@@ -1013,7 +1075,7 @@ pub fn probes() -> Vec<SimCase> {
             kind: "probe".into(),
             mc: vec![plain_machine(vec![a0, a1]), plain_machine(vec![b0, b1]), plain_machine(vec![c0, c1, c2])],
             ms: vec![],
-            trace: vec![(0, true), (200_000_000, true)],
+            trace: plain(vec![(0, true), (200_000_000, true)]),
             delay_ns: 1_000_000,
             runs: vec![probe_run(None)],
         });
@@ -1041,7 +1103,7 @@ pub fn probes() -> Vec<SimCase> {
             kind: "probe".into(),
             mc: vec![],
             ms: vec![plain_machine(vec![s0, s1])],
-            trace: vec![(0, true), (1_000_000, false), (40_000_000, false), (90_000_000, true), (500_000_000, false)],
+            trace: plain(vec![(0, true), (1_000_000, false), (40_000_000, false), (90_000_000, true), (500_000_000, false)]),
             delay_ns: 1_000_000,
             runs: vec![run, det],
         });
@@ -1051,7 +1113,7 @@ pub fn probes() -> Vec<SimCase> {
         let s0 = State::new(enum_map! { Event::NormalSent => tr1(1), _ => vec![] });
         let mut s1 = State::new(enum_map! { _ => vec![] });
         s1.action = Some(Action::BlockOutgoing { bypass: false, replace, timeout: konst(0.0), duration: konst(0.0), limit: None });
-        res.push(SimCase { id: id.into(), kind: "probe".into(), mc: vec![plain_machine(vec![s0, s1])], ms: vec![], trace: vec![(0, true), (5_000_000, true)], delay_ns: 1_000_000, runs: vec![probe_run(None)] });
+        res.push(SimCase { id: id.into(), kind: "probe".into(), mc: vec![plain_machine(vec![s0, s1])], ms: vec![], trace: plain(vec![(0, true), (5_000_000, true)]), delay_ns: 1_000_000, runs: vec![probe_run(None)] });
     }
     res
 }
@@ -1066,7 +1128,7 @@ pub fn case_inputs(c: &SimCase) -> String {
     for m in &c.ms {
         let _ = writeln!(out, "ms {}", hex(&genm::machine_bytes(m)));
     }
-    let tr: Vec<String> = c.trace.iter().map(|(t, s)| format!("{}:{}", t, if *s { "s" } else { "r" })).collect();
+    let tr: Vec<String> = c.trace.iter().map(tline_str).collect();
     let _ = writeln!(out, "tr {} {}", c.trace.len(), tr.join(" "));
     let _ = writeln!(out, "delay {}", c.delay_ns);
     for r in &c.runs {
@@ -1091,7 +1153,7 @@ pub fn parse_cases(text: &str) -> Vec<SimCase> {
         let ws: Vec<&str> = line.split_whitespace().collect();
         match ws.as_slice() {
             ["case", id, kind @ ..] => {
-                cur = Some(SimCase { id: id.to_string(), kind: kind.join(" "), mc: vec![], ms: vec![], trace: vec![], delay_ns: 0, runs: vec![] });
+                cur = Some(SimCase { id: id.to_string(), kind: kind.join(" "), mc: vec![], ms: vec![], trace: plain(vec![]), delay_ns: 0, runs: vec![] });
             }
             [side @ ("mc" | "ms"), h] => {
                 if let (Some(c), Some(b)) = (cur.as_mut(), unhex(h)) {
@@ -1108,8 +1170,12 @@ pub fn parse_cases(text: &str) -> Vec<SimCase> {
                 if let Some(c) = cur.as_mut() {
                     for it in items {
                         if let Some((t, d)) = it.split_once(':') {
-                            if let Ok(t) = t.parse::<u64>() {
-                                c.trace.push((t, d == "s"));
+                            let (d, size) = match d.strip_suffix('+') {
+                                Some(x) => (x, true),
+                                None => (d, false),
+                            };
+                            if let (Ok(t), Some(tok)) = (t.parse::<u64>(), TOKS.iter().position(|x| *x == d)) {
+                                c.trace.push(TLine { t, tok: tok as u8, size });
                             }
                         }
                     }
